@@ -12,7 +12,8 @@ MultiStates3 == {S3c}
 
 Per(c) == { C("SELECT", <<N(0)>>), C("SELECT", <<N(1)>>), C("SELECT", <<N(15)>>), C("SELECT", <<N(16)>>), C("SELECT", <<N(-1)>>),
             C("FLUSHDB", <<>>), C("FLUSHALL", <<>>), C("DBSIZE", <<>>), C("SET", <<ka, <<118, 48 + c>> >>), C("GET", <<ka>>),
-            C("KEYS", <<W("*")>>), C("CLIENT", <<W("SETNAME"), <<110, 48 + c>> >>), C("CLIENT", <<W("GETNAME")>>), C("HELLO", <<N(3)>>) }
+            C("KEYS", <<W("*")>>), C("CLIENT", <<W("SETNAME"), <<110, 48 + c>> >>), C("CLIENT", <<W("GETNAME")>>), C("HELLO", <<N(3)>>),
+            C("HELLO", <<N(2), W("SETNAME"), <<104, 48 + c>> >>) }
 MultiVocab == UNION {{<<c, m>> : m \in Per(c)} : c \in {1, 2}}
 MultiVocab3 == UNION {{<<c, m>> : m \in Per(c) \cup {C("SELECT", <<x>>), C("HELLO", <<N(2)>>), C("HELLO", <<N(4)>>), C("MULTI", <<>>), C("EXEC", <<>>),
                                                      C("CLIENT", <<W("SETNAME"), W("a b")>>), C("RPUSH", <<kb, y>>), C("EXISTS", <<ka, kb>>)}} : c \in {1, 2, 3}}
